@@ -22,8 +22,8 @@ def SpecOK (sp : JSpec) : Prop :=
 /-- mode of one source; `rem` = queued ++ not yet delivered -/
 def SrcOK (t : Topic) (ids : List Int) (F : Int) (s : Src) (rem : List Wire) : Prop :=
   ∃ (pre rest : List Int) (ws : List Wire), ids = pre ++ rest ∧ Stream t rest ws ∧
-    ( (rem = ws ∧ s.recvd = none ∧ s.reg = true ∧ ∀ c ∈ pre, c < F) ∨
-      (∃ k h, rem = h :: ws ∧ IsH t k h ∧ k ∈ pre ∧ s.recvd = none ∧ s.reg = true ∧ ∀ c ∈ pre, c < F) ∨
+    ( (rem = ws ∧ s.recvd = recvdNew s ∧ s.reg = true ∧ ∀ c ∈ pre, c < F) ∨
+      (∃ k h, rem = h :: ws ∧ IsH t k h ∧ k ∈ pre ∧ s.recvd = recvdNew s ∧ s.reg = true ∧ ∀ c ∈ pre, c < F) ∨
       (∃ h m pre', pre = pre' ++ [F] ∧ rem = h :: ws ∧ IsH t F h ∧ s.recvd = some [(t, some m)] ∧ m.mid = F ∧
           s.reg = false ∧ ∀ c ∈ pre', c < F) )
 
@@ -32,7 +32,7 @@ def JInv (sp : JSpec) (n : NSt) : Prop :=
   n.st.balance = false ∧ n.st.srcs.length = sp.ids.length ∧
   ∀ (j : Nat) (s : Src), n.st.srcs[j]? = some s →
     ∃ t ids fut, sp.topics[j]? = some t ∧ sp.ids[j]? = some ids ∧ n.future[j]? = some fut ∧
-      PlainSrc s ∧ SrcOK t ids (expected n.st) s (s.queue ++ fut)
+      PlainSrc t s ∧ SrcOK t ids (expected n.st) s (s.queue ++ fut)
 
 /-! ### small facts -/
 
@@ -58,14 +58,14 @@ theorem sorted_before (pre rest : List Int) (k c : Int) (hs : (pre ++ k :: rest)
 
 /-- SrcOK only reads `recvd`, `reg` of the source -/
 theorem SrcOK_congr (t : Topic) (ids : List Int) (F : Int) (s s' : Src) (rem : List Wire)
-    (h1 : s'.recvd = s.recvd) (h2 : s'.reg = s.reg) : SrcOK t ids F s rem → SrcOK t ids F s' rem := by
+    (h1 : s'.recvd = s.recvd) (h2 : s'.reg = s.reg) (hn : recvdNew s' = recvdNew s) : SrcOK t ids F s rem → SrcOK t ids F s' rem := by
   rintro ⟨pre, rest, ws, e1, e2, h⟩
   refine ⟨pre, rest, ws, e1, e2, ?_⟩
-  rw [h1, h2]; exact h
+  rw [h1, h2, hn]; exact h
 
 /-- raising the frontier keeps idle sources idle and turns a complete one into "idle with pending heartbeat" once it is reset -/
 theorem SrcOK_reset (t : Topic) (ids : List Int) (F F' : Int) (s s' : Src) (rem : List Wire) (hF : F < F')
-    (hr : s'.recvd = none) (hg : s'.reg = true) : SrcOK t ids F s rem → SrcOK t ids F' s' rem := by
+    (hr : s'.recvd = recvdNew s') (hg : s'.reg = true) : SrcOK t ids F s rem → SrcOK t ids F' s' rem := by
   rintro ⟨pre, rest, ws, e1, e2, h⟩
   refine ⟨pre, rest, ws, e1, e2, ?_⟩
   rcases h with ⟨h1, _, _, h4⟩ | ⟨k, h, h1, h2, h3, _, _, h6⟩ | ⟨h, m, pre', h1, h2, h3, _, _, _, h7⟩
@@ -80,12 +80,9 @@ theorem SrcOK_reset (t : Topic) (ids : List Int) (F F' : Int) (s s' : Src) (rem 
       · have := h7 c hc; omega
       · simp only [List.mem_singleton] at hc; omega
 
-theorem PlainSrc_congr (s s' : Src) (h1 : s'.eph = s.eph) (h2 : s'.subAll = s.subAll) (h3 : s'.star = s.star)
-    (h4 : s'.subs = s.subs) : PlainSrc s → PlainSrc s' := by
-  rintro ⟨a, b, c, d⟩; exact ⟨h1 ▸ a, h2 ▸ b, h3 ▸ c, h4 ▸ d⟩
-
-theorem recvdNew_plain (s : Src) (h : PlainSrc s) : recvdNew s = none := by
-  unfold recvdNew; simp [h.2.1]
+theorem PlainSrc_congr (t : Topic) (s s' : Src) (h1 : s'.eph = s.eph) (h2 : s'.subAll = s.subAll) (h3 : s'.star = s.star)
+    (h4 : s'.subs = s.subs) : PlainSrc t s → PlainSrc t s' := by
+  rintro ⟨a, b, c⟩; exact ⟨h1 ▸ a, h3 ▸ b, by rw [h2, h4]; exact c⟩
 
 /-- transfer principle: if every source of the new state comes from the source at the same index and its mode carries over,
 the invariant carries over -/
@@ -93,9 +90,9 @@ theorem JInv_of (sp : JSpec) (n n' : NSt) (hd : n'.st.dead = n.st.dead) (hb : n'
     (hlen : n'.st.srcs.length = n.st.srcs.length)
     (hsrc : n.st.dead = false → n.st.balance = false →
       ∀ (j : Nat) (s' : Src), n'.st.srcs[j]? = some s' → ∃ s, n.st.srcs[j]? = some s ∧
-        (PlainSrc s → PlainSrc s') ∧
+        (∀ t, PlainSrc t s → PlainSrc t s') ∧
         ∀ fut, n.future[j]? = some fut → ∃ fut', n'.future[j]? = some fut' ∧
-          ∀ t ids, sp.topics[j]? = some t → sp.ids[j]? = some ids → PlainSrc s →
+          ∀ t ids, sp.topics[j]? = some t → sp.ids[j]? = some ids → PlainSrc t s →
             SrcOK t ids (expected n.st) s (s.queue ++ fut) → SrcOK t ids (expected n'.st) s' (s'.queue ++ fut')) :
     JInv sp n → JInv sp n' := by
   intro h hd'
@@ -106,7 +103,7 @@ theorem JInv_of (sp : JSpec) (n n' : NSt) (hd : n'.st.dead = n.st.dead) (hb : n'
   rcases hsrc hd' h1 j s' hj with ⟨s, hs, hp, hf⟩
   rcases h3 j s hs with ⟨t, ids, fut, e1, e2, e3, e4, e5⟩
   rcases hf fut e3 with ⟨fut', e3', hok⟩
-  exact ⟨t, ids, fut', e1, e2, e3', hp e4, hok t ids e1 e2 e4 e5⟩
+  exact ⟨t, ids, fut', e1, e2, e3', hp t e4, hok t ids e1 e2 e4 e5⟩
 
 /-! ### events that do not touch the sources' buffers -/
 
@@ -125,7 +122,7 @@ theorem deliverNext_JInv (sp : JSpec) (n : NSt) (j : Nat) (h : JInv sp n) : JInv
         simp only
         refine JInv_of sp n _ rfl rfl rfl ?_ h
         intro _ _ a s' ha
-        refine ⟨s', ha, id, ?_⟩
+        refine ⟨s', ha, fun _ h => h, ?_⟩
         intro fut hfut
         have haj : a ≠ j := by intro e; rw [e, hs] at ha; cases ha
         refine ⟨fut, by simp only; rw [List.getElem?_set_ne (fun e => haj e.symm)]; exact hfut, ?_⟩
@@ -140,7 +137,7 @@ theorem deliverNext_JInv (sp : JSpec) (n : NSt) (j : Nat) (h : JInv sp n) : JInv
           have hlen : j < n.st.srcs.length := (List.getElem?_eq_some_iff.mp hs).1
           simp only [hlen, ↓reduceIte, Option.some.injEq] at ha
           subst ha
-          refine ⟨s, hs, fun hp => PlainSrc_congr s _ rfl rfl rfl rfl hp, ?_⟩
+          refine ⟨s, hs, fun t hp => PlainSrc_congr t s _ rfl rfl rfl rfl hp, ?_⟩
           intro fut hfut
           rw [hf] at hfut; cases hfut
           have hlen2 : j < n.future.length := (List.getElem?_eq_some_iff.mp hf).1
@@ -149,9 +146,9 @@ theorem deliverNext_JInv (sp : JSpec) (n : NSt) (j : Nat) (h : JInv sp n) : JInv
           have : (s.queue ++ [w]) ++ rest = s.queue ++ (w :: rest) := by simp
           simp only
           rw [this]
-          exact SrcOK_congr t ids _ s _ _ rfl rfl hok
+          exact SrcOK_congr t ids _ s _ _ rfl rfl rfl hok
         · simp only [haj, ↓reduceIte] at ha
-          refine ⟨s', ha, id, ?_⟩
+          refine ⟨s', ha, fun _ h => h, ?_⟩
           intro fut hfut
           refine ⟨fut, by simp only; rw [List.getElem?_set_ne haj]; exact hfut, ?_⟩
           intro t ids _ _ _ hok; exact hok
@@ -171,7 +168,7 @@ theorem same_srcs_JInv (sp : JSpec) (n : NSt) (st' : St) (hsr : st'.srcs = n.st.
   refine JInv_of sp n _ hd hb (by simp only; rw [hsr]) ?_ h
   intro hdd _ a s' ha
   simp only at ha; rw [hsr] at ha
-  refine ⟨s', ha, id, ?_⟩
+  refine ⟨s', ha, fun _ h => h, ?_⟩
   intro fut hfut
   refine ⟨fut, hfut, ?_⟩
   intro t ids _ _ _ hok
@@ -212,9 +209,9 @@ theorem timeout_JInv (sp : JSpec) (n : NSt) (h : JInv sp n) : JInv sp (nRecv n .
 theorem take_src (t : Topic) (ids : List Int) (F : Int) (s : Src) (w : Wire) (r : List Wire)
     (hsorted : ids.Pairwise (· < ·)) (hnn : ∀ k ∈ ids, 0 ≤ k)
     (hok : SrcOK t ids F s (w :: r)) (hreg : s.reg = true) :
-    (w.mid < F ∧ 0 ≤ w.mid ∧ w.bal = 0 ∧ s.recvd = none ∧
-        ∀ s' : Src, s'.recvd = none → s'.reg = true → SrcOK t ids F s' r) ∨
-    (F ≤ w.mid ∧ 0 ≤ w.mid ∧ IsT t w.mid w ∧ s.recvd = none ∧ w.mid ∈ ids ∧ (∀ c ∈ ids, F ≤ c → c < w.mid → False) ∧
+    (w.mid < F ∧ 0 ≤ w.mid ∧ w.bal = 0 ∧ s.recvd = recvdNew s ∧
+        ∀ s' : Src, s'.recvd = recvdNew s' → s'.reg = true → SrcOK t ids F s' r) ∨
+    (F ≤ w.mid ∧ 0 ≤ w.mid ∧ IsT t w.mid w ∧ s.recvd = recvdNew s ∧ w.mid ∈ ids ∧ (∀ c ∈ ids, F ≤ c → c < w.mid → False) ∧
         ∀ (s' : Src) (m : Msg), s'.recvd = some [(t, some m)] → m.mid = w.mid → s'.reg = false → SrcOK t ids w.mid s' r) := by
   rcases hok with ⟨pre, rest, ws, e1, e2, h⟩
   rcases h with ⟨h1, h2, _, h4⟩ | ⟨k, h, h1, h2, h3, h4, _, h6⟩ | ⟨h, m, pre', _, _, _, _, _, h6, _⟩
@@ -301,7 +298,7 @@ theorem take_JInv (sp : JSpec) (hsp : SpecOK sp) (n : NSt) (i : Nat) (h : JInv s
         rcases take_src t ids (expected n.st) s0 w (q ++ fut) hsorted hnn hok' hreg with
           ⟨hlt, h0, hb0, hr0, hnext⟩ | ⟨hge, h0, hT, hr0, _, _, hnext⟩
         · -- older: dropped
-          rw [onTake_older n.st i s0 w q hs hq hp h0 (hexp ▸ hlt) hb0]
+          rw [onTake_older n.st i s0 w q hs hq hp.1 h0 (hexp ▸ hlt) hb0]
           refine JInv_of sp n _ rfl rfl (by simp) ?_ h
           intro _ _ a s' ha
           simp only [List.getElem?_set] at ha
@@ -310,7 +307,7 @@ theorem take_JInv (sp : JSpec) (hsp : SpecOK sp) (n : NSt) (i : Nat) (h : JInv s
             have hlen : i < n.st.srcs.length := (List.getElem?_eq_some_iff.mp hs).1
             simp only [hlen, ↓reduceIte, Option.some.injEq] at ha
             subst ha
-            refine ⟨s0, hs, fun hp => PlainSrc_congr s0 _ rfl rfl rfl rfl hp, ?_⟩
+            refine ⟨s0, hs, fun t hp => PlainSrc_congr t s0 _ rfl rfl rfl rfl hp, ?_⟩
             intro fut' hfut'
             rw [ef] at hfut'; cases hfut'
             refine ⟨fut, ef, ?_⟩
@@ -319,7 +316,7 @@ theorem take_JInv (sp : JSpec) (hsp : SpecOK sp) (n : NSt) (i : Nat) (h : JInv s
             simp only
             exact hnext _ hr0 hreg
           · simp only [hia, ↓reduceIte] at ha
-            refine ⟨s', ha, id, ?_⟩
+            refine ⟨s', ha, fun _ h => h, ?_⟩
             intro fut' hfut'
             exact ⟨fut', hfut', fun t' ids' _ _ _ hok' => hok'⟩
         · -- topic message of an id that is not older: source i becomes complete for that id; a newer id resets the others
@@ -339,7 +336,7 @@ theorem take_JInv (sp : JSpec) (hsp : SpecOK sp) (n : NSt) (i : Nat) (h : JInv s
             · subst hia
               simp only [hlen, ↓reduceIte, Option.map_some, ne_eq, not_true_eq_false, false_and, Option.some.injEq] at ha
               subst ha
-              refine ⟨s0, hs, fun hp => PlainSrc_congr s0 _ rfl rfl rfl rfl hp, ?_⟩
+              refine ⟨s0, hs, fun t hp => PlainSrc_congr t s0 _ rfl rfl rfl rfl hp, ?_⟩
               intro fut' hfut'
               rw [ef] at hfut'; cases hfut'
               refine ⟨fut, ef, ?_⟩
@@ -355,10 +352,10 @@ theorem take_JInv (sp : JSpec) (hsp : SpecOK sp) (n : NSt) (i : Nat) (h : JInv s
                 rw [h0a] at ha
                 simp only [Option.map_some, Option.some.injEq] at ha
                 refine ⟨sa, rfl, ?_, ?_⟩
-                · intro hpa
+                · intro t' hpa
                   subst ha
                   split
-                  · exact PlainSrc_congr sa _ rfl rfl rfl rfl hpa
+                  · exact PlainSrc_congr t' sa _ rfl rfl rfl rfl hpa
                   · exact hpa
                 · intro fut' hfut'
                   refine ⟨fut', hfut', ?_⟩
@@ -368,7 +365,7 @@ theorem take_JInv (sp : JSpec) (hsp : SpecOK sp) (n : NSt) (i : Nat) (h : JInv s
                   subst ha
                   simp only
                   rw [hexp']
-                  exact SrcOK_reset t' ids' (expected n.st) w.mid sa _ _ (by rw [hexp]; exact hnew) (recvdNew_plain sa hpa) rfl hoka
+                  exact SrcOK_reset t' ids' (expected n.st) w.mid sa _ _ (by rw [hexp]; exact hnew) rfl rfl hoka
           · -- same id
             have hsame : w.mid = n.st.minRecvId := by omega
             simp only [hnew, ↓reduceIte]
@@ -379,7 +376,7 @@ theorem take_JInv (sp : JSpec) (hsp : SpecOK sp) (n : NSt) (i : Nat) (h : JInv s
             · subst hia
               simp only [hlen, ↓reduceIte, Option.some.injEq] at ha
               subst ha
-              refine ⟨s0, hs, fun hp => PlainSrc_congr s0 _ rfl rfl rfl rfl hp, ?_⟩
+              refine ⟨s0, hs, fun t hp => PlainSrc_congr t s0 _ rfl rfl rfl rfl hp, ?_⟩
               intro fut' hfut'
               rw [ef] at hfut'; cases hfut'
               refine ⟨fut, ef, ?_⟩
@@ -389,7 +386,7 @@ theorem take_JInv (sp : JSpec) (hsp : SpecOK sp) (n : NSt) (i : Nat) (h : JInv s
               rw [hexp']
               exact hnext _ (frameOf i w t) rfl rfl rfl
             · simp only [hia, ↓reduceIte] at ha
-              refine ⟨s', ha, id, ?_⟩
+              refine ⟨s', ha, fun _ h => h, ?_⟩
               intro fut' hfut'
               refine ⟨fut', hfut', ?_⟩
               intro t' ids' _ _ _ hoka
@@ -432,7 +429,7 @@ theorem check_JInv (sp : JSpec) (n : NSt) (h : JInv sp n) : JInv sp (nRecv n .ch
         rw [h0a] at ha
         simp only [Option.map_some, Option.some.injEq] at ha
         subst ha
-        refine ⟨sa, rfl, fun hp => PlainSrc_congr sa _ rfl rfl rfl rfl hp, ?_⟩
+        refine ⟨sa, rfl, fun t hp => PlainSrc_congr t sa _ rfl rfl rfl rfl hp, ?_⟩
         intro fut' hfut'
         refine ⟨fut', hfut', ?_⟩
         intro t' ids' _ _ hpa hoka
@@ -440,7 +437,7 @@ theorem check_JInv (sp : JSpec) (n : NSt) (h : JInv sp n) : JInv sp (nRecv n .ch
           unfold expected; simp
         simp only
         rw [hexp']
-        exact SrcOK_reset t' ids' (expected n.st) _ sa _ _ (by rw [hexp]; omega) (recvdNew_plain sa hpa) rfl hoka
+        exact SrcOK_reset t' ids' (expected n.st) _ sa _ _ (by rw [hexp]; omega) rfl rfl hoka
 
 /-- **the join invariant is preserved by every admissible network/receiver event** -/
 theorem nstep_JInv (sp : JSpec) (hsp : SpecOK sp) (n : NSt) (e : NEv) (ha : NAdm e) (h : JInv sp n) : JInv sp (nstep n e).1 := by
